@@ -19,6 +19,7 @@ def step (o : Obj) (toks : List String) : Obj × String :=
   | "X" :: ls => match ints ls with
       | some l => (o, joinInts (xor (l.take 8) (l.drop 8)))
       | none => (o, "bad-op")
+  | "MT" :: _ => (o, "ok")
   | "new" :: ls => match ints ls with
       | some h => (Obj.ofLanes h, "ok")
       | none => (o, "bad-op")
